@@ -309,13 +309,30 @@ package slice
 // canonical form C11 states: adjacent edits differ in kind and a drop is never next to a copy (they are one Replace).
 //@ pred altOK(out []Edit[T]) := forall a int, b int :: {out[a], out[b]} 0 <= a && b == a + 1 && b < len(out) ==> ((out[a].Op == OpEmit) != (out[b].Op == OpEmit))
 //@
+// keptOK: es[k] is the number of elements kept (emitted) by the first k edits.
+//@ pred keptOK(out []Edit[T], es imap[int]) := es[0] == 0 && forall k int :: {out[k]} 0 <= k && k < len(out) ==> es[k + 1] == es[k] + ite(out[k].Op == OpEmit, len(out[k].X), 0)
+//@
 //@ func editScriptFunc
 //@   role eq eqv
-//@   ghostret lp imap[int], rp imap[int]
+//@   ghostret lp imap[int], rp imap[int], es imap[int], cw imap[int], cv imap[int], L int
 //@   ensures [C11] script: len(result) > 0 ==> scriptOK(result, lhs, rhs, eq, lp, rp) && lp[len(result)] == len(lhs) && rp[len(result)] == len(rhs)
 //@   ensures [C11] same: len(result) == 0 ==> len(lhs) == len(rhs) && forall t int :: {lhs[t]} 0 <= t && t < len(lhs) ==> eqv(eq, lhs[t], rhs[t])
 //@   ensures [C11] inputs: unchanged(elems(lhs)) && unchanged(elems(rhs))
 //@   ensures [C11] alternate: altOK(result)
+//@   ensures [C11] kept: len(result) > 0 ==> keptOK(result, es) && es[len(result)] == L
+//@   ensures [C11] common: L >= 0 && (forall k int :: {cw[k]} {cv[k]} 0 <= k && k < L ==> 0 <= cw[k] && cw[k] < len(lhs) && 0 <= cv[k] && cv[k] < len(rhs) && eqv(eq, lhs[cw[k]], rhs[cv[k]])) && (forall a int, b int :: {cw[a], cw[b]} {cv[a], cv[b]} 0 <= a && a < b && b < L ==> cw[a] < cw[b] && cv[a] < cv[b])
+//@   at after "lcs := LCSFunc(lhs, rhs, eq)": ghost es[0] = 0
+//@   at after "lcs := LCSFunc(lhs, rhs, eq)": ghost L = len(lcs)
+//@   at after "lcs := LCSFunc(lhs, rhs, eq)": ghost cw = LCSFunc_wa
+//@   at after "lcs := LCSFunc(lhs, rhs, eq)": ghost cv = LCSFunc_wb
+//@   at after "out = append(out, Edit[T]{Op: OpReplace, X: lhs[lpos:lend], Y: rhs[rpos:rend]})": ghost es[len(out)] = es[len(out) - 1]
+//@   at after "out = append(out, Edit[T]{Op: OpDrop, X: lhs[lpos:lend]})": ghost es[len(out)] = es[len(out) - 1]
+//@   at after "out = append(out, Edit[T]{Op: OpCopy, Y: rhs[rpos:rend]})": ghost es[len(out)] = es[len(out) - 1]
+//@   at after "out = append(out, Edit[T]{Op: OpEmit, X: lhs[lpos : lpos+m]})": ghost es[len(out)] = es[len(out) - 1] + m
+//@   at after "out = append(out, Edit[T]{Op: OpReplace, X: lhs[lpos:], Y: rhs[rpos:]})": ghost es[len(out)] = es[len(out) - 1]
+//@   at after "out = append(out, Edit[T]{Op: OpDrop, X: lhs[lpos:]})": ghost es[len(out)] = es[len(out) - 1]
+//@   at after "out = append(out, Edit[T]{Op: OpCopy, Y: rhs[rpos:]})": ghost es[len(out)] = es[len(out) - 1]
+//@   loop 1: invariant [C11] kept: keptOK(out, es) && es[len(out)] == i && L == len(lcs)
 //@   loop 1: invariant [C11] alt: altOK(out) && (len(out) > 0 ==> out[len(out) - 1].Op == OpEmit)
 //@   loop 1: invariant [C11] gap: len(out) > 0 && i < len(lcs) ==> !(eqv(eq, lhs[lpos], lcs[i]) && eqv(eq, rhs[rpos], lcs[i]))
 //@   loop 2: invariant [C11] first: lend > lpos ==> !eqv(eq, lhs[lpos], lcs[i])
